@@ -342,3 +342,28 @@ Definition as_rinst (g : ginst) : rinst :=
 (* width of the result of read(max_ops = mo) on a file with [total] operations *)
 Definition read_width (mo : option Z) (total : Z) : Z := match mo with None => total | Some m => m end.
 Definition max_ops_ok (mo : option Z) (total : Z) : Prop := match mo with None => True | Some m => total <= m end.
+
+(* ------------------------------------------------------------------------------------------ directories of files *)
+(* get_n_ops_of_instance(file): the job lines are lines[1:] (the header is NOT a job); total number of operations *)
+Definition n_ops_of (pj : list Z -> res (list (list (Z * Z)))) (f : list (list tok)) : res Z :=
+  bind (file2lines f) (fun lines =>
+  bind (mapM pj (tl lines)) (fun jobs => Ok (sumZ (map (fun j => Z.of_nat (length j)) jobs)))).
+
+Definition lmax (n : Z) (r : list Z) : Z := fold_right Z.max n r.
+
+(* get_max_ops_from_files(files) = max(map(get_n_ops_of_instance, files)); max() of nothing raises *)
+Definition max_ops_from_files (pj : list Z -> res (list (list (Z * Z)))) (files : list (list (list tok))) : res Z :=
+  bind (mapM (n_ops_of pj) files) (fun ns => match ns with [] => Raises | n :: r => Ok (lmax n r) end).
+
+(* FJSPFileGenerator / JSSPFileGenerator.__init__: with more than one file every instance is padded to the largest
+   operation count found in the directory, otherwise the caller's n_ops_max is used; files in the order given
+   (os.listdir order -- unspecified, an input here) *)
+Definition file_generator (pj : list Z -> res (list (list (Z * Z)))) (n_ops_max : option Z)
+           (files : list (list (list tok))) : res (list rinst) :=
+  match files with
+  | [] => Raises                                               (* assert len(files) > 0 *)
+  | _ :: _ =>
+      bind (if Nat.ltb 1 (length files)
+            then bind (max_ops_from_files pj files) (fun m => Ok (Some m)) else Ok n_ops_max)
+           (fun mo => mapM (read_with pj mo) files)
+  end.
